@@ -827,6 +827,10 @@ def bounded(b):
             for q2 in qops:
                 if q2 is not q1:
                     _run_history(b, [("add", "N1", 0, 5), q1, q2, ("gp", t)], every_step=False)
+    # times beyond 2**53 (where neighbouring integers are no longer different floating-point numbers): the timeline orders them as integers
+    for T in (2**53, 2**53 + 2**20, 2**62):
+        _run_history(b, [("add", "N1", T, T + 2), ("add", "R1", T + 1, T + 3), ("add", "M1", T - 1, T + 1), ("rm", "N1", "both")], every_step=True)
+        _run_history(b, [("add", "N1", T + 1, T + 3), ("add", "R1", T, T + 1), ("gp", T + 2)], every_step=True)
     # equal-valued objects of one class at one time: both stay registered, removing one leaves the other
     U2 = _twin_universe()
     rng2 = random.Random(b.seed + 1)
